@@ -306,6 +306,10 @@ def judge_traces(out, entries, res, relevant, domain=None, per_grammar=2):
         if e is None or (domain is not None and gid not in domain):
             out.notes.append('harness process died while parsing grammar %s (exit %s)' % (gid, rc))
             continue
+        if rc == 124 and hasattr(e.g, 'is_cyclic') and e.g.is_cyclic():
+            # A =>+ A without consuming input: the specification's driver does not terminate on such a grammar either
+            out.notes.append('no result within the time budget for the CYCLIC grammar %s (some nonterminal derives itself): not a verdict' % gid)
+            continue
         done = {t['id'] for t in e.traces}
         first = [j for j in e.jobs if j[0] not in done][:1]
         out.violations.append({'summary': {'grammar': gid, 'rules': ['%s -> %s%s' % (l, ' '.join(r) or 'eps', ' [%d]' % p if p else '') for (l, r, p) in e.g.rules],
@@ -464,7 +468,9 @@ def check_C02(tier, seed):
         for k in range(3 if tier == 'quick' else 8):
             nv = [i for i, x in enumerate(g.nts) if x != g.root and rng.random() < 0.4]
             ctx = [i for i in range(len(g.rules)) if rng.random() < 0.4]
-            dfl = [] if g.has_error() else [i for i, (l, r, _) in enumerate(g.rules) if i not in ctx and g.nts.index(l) not in nv and rng.random() < 0.3]
+            # (a functor-less unit rule over a value-less nonterminal would need Node(no_type): not a valid user program)
+            dfl = [] if g.has_error() else [i for i, (l, r, _) in enumerate(g.rules) if i not in ctx and g.nts.index(l) not in nv and rng.random() < 0.3
+                                            and not (len(r) == 1 and r[0] in g.nts and g.nts.index(r[0]) in nv)]
             e = pipeline.gen_entry(g, gid='%s@x%d' % (n, k), ctx=ctx, dflt=dfl, noval=nv, nvterms=[i for i in range(len(g.ts)) if rng.random() < 0.3],
                                    postprec=[i for i, (_, _, pr) in enumerate(g.rules) if pr and rng.random() < 0.5],
                                    defines=('VH_MOVE_MAY_THROW',) if rng.random() < 0.5 else ())
